@@ -71,6 +71,8 @@ def _step(kinds, modes):
             "pts": st.lists(_point, min_size=1, max_size=8),
             # isothermal field at a special temperature (None = use the points' temperatures)
             "iso": st.sampled_from([None, None, None, 0.0, 0.0] + gen.SPECIAL_TEMPS),
+            # step-wise interface: per solid component [hold the current temperature?, new temperature]
+            "sw": st.lists(st.tuples(st.sampled_from([False, False, False, True, True]), _temp).map(list), min_size=1, max_size=10),
             "inverse": st.booleans(),
             "setFuel": st.booleans(),
             "fresh": st.booleans(),
@@ -84,7 +86,7 @@ def _step(kinds, modes):
 
 
 def main_strategy(tier):
-    step = _step(["prescribed", "prescribed", "prescribed", "thermal"], ["component", "component", "block", "all", "subset"])
+    step = _step(["prescribed", "prescribed", "prescribed", "thermal", "stepwise", "stepwise"], ["component", "component", "block", "all", "subset"])
     return st.fixed_dictionaries(
         {
             "asm": gen.asm_spec(),
@@ -95,7 +97,7 @@ def main_strategy(tier):
 
 
 def known_strategy(tier):
-    step = _step(["prescribed", "prescribed", "thermal"], ["component", "subset", "subset"])
+    step = _step(["prescribed", "prescribed", "thermal", "stepwise"], ["component", "subset", "subset"])
     return st.fixed_dictionaries(
         {
             "asm": gen.asm_spec(force_plenum=True, auto_targets_only=True),
@@ -211,6 +213,7 @@ class Run:
         self.diff_growth = False
         self.shape_hits = 0
         self.swaps = 0
+        self.sw = None  # persistent changer of the step-wise thermal interface
 
     # ---- components ------------------------------------------------------------------------
     def comp(self, i, name):
@@ -272,6 +275,61 @@ class Run:
                 p1 = c.material.linearExpansionPercent(Tc=temps[i])
                 g[(i, name)] = (1.0 + float(p1) / 100.0) / (1.0 + float(p0) / 100.0)
         return g
+
+    def stepwise_plan(self, step):
+        """Per-solid-component new temperatures for the step-wise interface; 'hold' re-assigns the current one."""
+        m = self.model
+        sw = step.get("sw") or [[False, 300.0]]
+        n = len(sw)
+        tmap = {}
+        for i in range(m.nb):
+            for k, name in enumerate(m.solids[i]):
+                hold, T = sw[(i * 6 + k) % n]
+                tmap[(i, name)] = float(self.comp(i, name).temperatureInC) if hold else float(T)
+        return tmap
+
+    def map_growth(self, tmap):
+        g = {}
+        for (i, name), T in tmap.items():
+            c = self.comp(i, name)
+            p0 = c.material.linearExpansionPercent(Tc=float(c.temperatureInC))
+            p1 = c.material.linearExpansionPercent(Tc=T)
+            g[(i, name)] = (1.0 + float(p1) / 100.0) / (1.0 + float(p0) / 100.0)
+        return g
+
+    def apply_stepwise(self, step, tmap, g, tag):
+        """setAssembly once, then per step updateComponentTemp for every solid + computeThermalExpansionFactors +
+        axiallyExpandAssembly (the sequence of armi's complexConservationTest) on ONE persistent changer."""
+        if self.sw is None or step["fresh"]:
+            self.sw = self.Changer(detailedAxialExpansion=self.case["detailed"])
+            self.sw.setAssembly(self.a, setFuel=step["setFuel"])
+            self.out.label("stepwise:setAssembly")
+        else:
+            self.out.label("stepwise:persistent")
+        pre = _snapshot(self.a)
+        ch = self.sw
+        for (i, name) in sorted(tmap):
+            ch.expansionData.updateComponentTemp(self.comp(i, name), tmap[(i, name)])
+        ch.expansionData.computeThermalExpansionFactors()
+        ch.axiallyExpandAssembly()
+        self.applied += 1
+        self.judge(pre, g, ch, "stepwise", tag, tmap)
+        return pre
+
+    def stepwise_repair(self, tmap):
+        """Avoid the known shape: a member of a target's linked column with the same material and current temperature
+        as its block's target gets that target's new temperature (identical growth)."""
+        m = self.model
+        changed = False
+        for i in range(1, m.nb):
+            for (j, n) in m.chain_below(i, m.targets[i]):
+                t = m.targets[j]
+                c, ct = self.comp(j, n), self.comp(j, t)
+                if n != t and type(c.material) is type(ct.material) and float(c.temperatureInC) == float(ct.temperatureInC) \
+                        and tmap[(j, n)] != tmap[(j, t)]:
+                    tmap[(j, n)] = tmap[(j, t)]
+                    changed = True
+        return changed
 
     # ---- applying --------------------------------------------------------------------------
     def feasible(self, g):
@@ -373,17 +431,22 @@ class Run:
                           lambda: "%s: block %d %s height %r (ztop-zbottom %r), growth %r x old block height %r = %r"
                           % (where, i, name, float(c.height), float(c.ztop) - float(c.zbottom), g[(i, name)], h_old[i], want_h))
         # 6. thermal bookkeeping
-        if kind == "thermal":
+        if kind in ("thermal", "stepwise"):
             for i, b in enumerate(a):
                 for c in b:
-                    out.check(abs(float(c.temperatureInC) - temps[i]) <= 1e-9 * max(1.0, abs(temps[i])), "c12/thermal/component-temperature",
-                              lambda: "%s: block %d %s at %r C, block average of the field %r" % (where, i, c.name, float(c.temperatureInC), temps[i]))
+                    if kind == "thermal":
+                        want_T = temps[i]
+                    else:  # step-wise interface: assigned solids get their temperature, everything else keeps its own
+                        want_T = temps.get((i, c.name), pre["comp"][(i, c.name)]["T"])
+                    out.check(abs(float(c.temperatureInC) - want_T) <= 1e-9 * max(1.0, abs(want_T)), "c12/thermal/component-temperature",
+                              lambda: "%s: block %d %s at %r C, assigned / block average of the field %r" % (where, i, c.name, float(c.temperatureInC), want_T))
             for i in range(nb):
                 for name in m.solids[i]:
                     got = float(ch.expansionData.getExpansionFactor(self.comp(i, name)))
                     out.check(_rel_close(got, g[(i, name)], 1e-11), "c12/thermal/expansion-factor",
                               lambda: "%s: block %d %s factor %r, (1+p(Tnew))/(1+p(Told)) = %r (Told %r Tnew %r)"
-                              % (where, i, name, got, g[(i, name)], pre["comp"][(i, name)]["T"], temps[i]))
+                              % (where, i, name, got, g[(i, name)], pre["comp"][(i, name)]["T"],
+                                 temps[i] if kind == "thermal" else temps[(i, name)]))
         # 7. masses and densities
         for i in range(nb):
             tname = m.targets[i]
@@ -428,7 +491,7 @@ class Run:
                                   "c12/uniform-growth/density-not-scaled-by-inverse-growth",
                                   lambda: "%s: block %d %s number densities not old / %r" % (where, i, name, g[(i, name)]))
         # 8. fluids keep their number densities in a prescribed change (only solids are expanded)
-        if kind == "prescribed":
+        if kind in ("prescribed", "stepwise"):
             for i, b in enumerate(a):
                 for c in b:
                     if (i, c.name) in g:
@@ -449,7 +512,7 @@ class Run:
             for c in b:
                 old = before["comp"][(i, c.name)]
                 solid = c.name in self.model.solids[i]
-                if kind == "thermal" and not solid:
+                if kind in ("thermal", "stepwise") and not solid:
                     continue
                 out.check(_rel_close(float(c.getMass()), old["mass"]), "c12/inverse/mass-not-restored",
                           lambda: "%s: block %d %s mass %r, before %r" % (where, i, c.name, float(c.getMass()), old["mass"]))
@@ -474,6 +537,7 @@ class Run:
         a.calculateZCoords()
         self.blocks[i], self.blocks[j] = self.blocks[j], self.blocks[i]
         self.model = Model(self.blocks)
+        self.sw = None  # the block order changed: a step-wise caller has to call setAssembly again
         if a[i] is not bj or a[j] is not bi or len(a) != nb + 1:
             raise AssertionError("C12 harness: block swap did not produce the intended order")
         self.out.label("swap:adjacent" if j == i + 1 else "swap:distant")
@@ -542,6 +606,34 @@ class Run:
                     self.apply_prescribed(step, inv, "inverse")
                     if not shaped and not any(x != 0.0 for x in dev2):
                         self.judge_restore(before, "prescribed")
+            return True
+        if step["kind"] == "stepwise":
+            tmap = self.stepwise_plan(step)
+            if self.exclude and self.stepwise_repair(tmap):
+                out.label("excluded:" + SIG_KNOWN)
+            g = self.map_growth(tmap)
+            ok, dev = self.feasible(g)
+            shaped = any(x != 0.0 for x in dev)
+            if shaped and self.exclude:
+                out.label("excluded:" + SIG_KNOWN)
+                out.label("skipped:stepwise-step")
+                return True
+            if not ok:
+                out.label("cut:block-exhausted")
+                return False
+            prior = {k: float(self.comp(*k).temperatureInC) for k in tmap}
+            out.label("step:stepwise")
+            nheld = sum(1 for k in tmap if tmap[k] == prior[k])
+            out.label("stepwise:all-held" if nheld == len(tmap) else "stepwise:some-held" if nheld else "stepwise:none-held")
+            before = self.apply_stepwise(step, tmap, g, "temps")
+            if step["inverse"]:
+                g2 = self.map_growth(prior)
+                ok2, dev2 = self.feasible(g2)
+                if ok2:
+                    out.label("inverse:stepwise")
+                    self.apply_stepwise(dict(step, fresh=False), prior, g2, "inverse")
+                    if not shaped and not any(x != 0.0 for x in dev2):
+                        self.judge_restore(before, "stepwise")
             return True
         # thermal
         grid, field, temps = self.thermal_plan(step)
@@ -624,7 +716,9 @@ PARTS = [
          rule="Hypothesis: pin-type assemblies (grid plate / shield / fuel or control x1-4 / plenum, aclp / duct block / fluid dummy "
               "on top; fuel, bond, clad, wire, duct, coolant; realistic or single materials; automatic or explicit target components; "
               "built from component objects or from a blueprint, hot or cold input heights) x histories of 1-6 prescribed "
-              "(per-component, per-block, uniform, one-component-kind) or thermal-field changes, each optionally followed by its "
+              "(per-component, per-block, uniform, one-component-kind), thermal-field or step-wise thermal changes (one persistent "
+              "changer: updateComponentTemp per solid with ~40 % holds + computeThermalExpansionFactors + axiallyExpandAssembly), "
+              "each optionally followed by its "
               "inverse, optionally preceded by a swap of two same-kind blocks (remove/insert + reestablishBlockOrder + "
               "calculateZCoords) with the changer object reused or fresh; short (1-3 cm) blocks above tall columns and small dummy "
               "blocks are over-weighted and a growth for which the column-stacking model predicts a negative block height is "
